@@ -17,7 +17,8 @@ RULE = ("0-5 parameters, values in {int, float, None, str (incl. multi-character
         "ndarray} of length 0, 1 or more with repeats, declared through the constructor dict and/or add_parameter; ops "
         "add / remove / build / build twice / mutate a returned dict / rejected non-str name (AttributeError), duplicate "
         "(KeyError), remove unknown (KeyError); non-trivial = >=2 multi-valued parameters live at a build and >=1 remove "
-        "or rejected op before it; distinct = (declared lengths and kinds at each build, op kinds)")
+        "or rejected op before it; distinct = (declared lengths and kinds at each build, op kinds)"
+        "; also: equal-valued values of different type / sign (1, 1.0, True, 0.0, -0.0), str-subclass strings, agent classes / objects as single values, the constructor dict checked for aliasing")
 COMPONENTS = {"real": ["ECAgent.Batching.ParameterList.__init__ / add_parameter / remove_parameter / build"],
               "stub": ["none - the reference is an independent nested-loop product"]}
 PROBES = ["empty_collection", "no_parameters", "repeated_values", "string_value", "rebuild_after_mutation", "ndarray_value",
